@@ -218,6 +218,9 @@ class WriteBroadcastDistributionTable(BVLPDU):
         self.bvlciBDT = bdt
 
     def encode(self, bvlpdu):
+        # make sure the length is correct
+        self.bvlciLength = 4 + 10 * len(self.bvlciBDT)
+
         BVLCI.update(bvlpdu, self)
         for bdte in self.bvlciBDT:
             bvlpdu.put_data( bdte.addrAddr )
@@ -499,6 +502,9 @@ class ReadForeignDeviceTableAck(BVLPDU):
         self.bvlciFDT = fdt
 
     def encode(self, bvlpdu):
+        # make sure the length is correct
+        self.bvlciLength = 4 + 10 * len(self.bvlciFDT)
+
         BVLCI.update(bvlpdu, self)
         for fdte in self.bvlciFDT:
             bvlpdu.put_data( fdte.fdAddress.addrAddr )
